@@ -25,6 +25,14 @@ def yaml_node_configs() -> List[Tuple[str, dict]]:
                          ("VMul", {"factor": 2.0}), ("VTwo", {"factor": 1.0, "addend": 2.0}), ("VNested", {"opts": {"a": 1}}), ("VTxtSink", {"path": "x.txt"}),
                          ("VSink", {}), ("VPaySink", {}), ("VSum", {}), ("VCtxWrite", {}), ("VFailIf", {"a": 1.0})):
         out.append((f"plain:{proc}:{sorted(params)}", {"processor": proc, "parameters": params} if params else {"processor": proc}))
+    # legal components without a docstring
+    for proc, extra in (("VNoDocSrc", {}), ("VNoDocOp", {}), ("VNoDocProbe", {"context_key": "k"}), ("VNoDocSink", {}), ("VNoDocPaySrc", {}),
+                        ("slice:VNoDocOp:FloatDataCollection", {}), ("slice:VNoDocProbe:FloatDataCollection", {"context_key": "k"})):
+        out.append((f"nodoc:{proc}", {"processor": proc, **extra}))
+    out.append(("nodoc:sweep:VNoDocOp", {"processor": "VNoDocOp", "derive": {"parameter_sweep": {"parameters": {"factor": "t"}, "variables": {"t": [1.0, 2.0]},
+                                                                                               "collection": "FloatDataCollection"}}}))
+    out.append(("nodoc:sweep:VNoDocSrc", {"processor": "VNoDocSrc", "derive": {"parameter_sweep": {"parameters": {"value": "t"}, "variables": {"t": [1.0, 2.0]},
+                                                                                                 "collection": "FloatDataCollection"}}}))
     for proc in ("VProbe", "VGainProbe", "VFactorProbe", "VTwoProbe"):
         for key in ("k", "factor"):
             out.append((f"probe:{proc}->{key}", {"processor": proc, "context_key": key}))
@@ -144,7 +152,19 @@ def judge(label: str, cfg) -> List[Tuple[str, str, dict]]:
         ck = getattr(node, "context_key", None)
         if ck and ck not in got:
             out.append(("mirror|context-key", f"{label}: context_key {ck} not in node created keys {sorted(got)}", case))
+    md = ncls.get_metadata()
+    if proc is not None and not isinstance(node, (_ContextProcessorNode, _ContextDataProcessorNode)):
+        want = {"input_data_type": ncls.input_data_type().__name__, "output_data_type": ncls.output_data_type().__name__}
+        for k, v in want.items():
+            if md.get(k) != v:
+                out.append(("mirror|metadata-" + k, f"{label}: node metadata {k}={md.get(k)!r} but the node class declares {v}", case))
+        if "injected_context_keys" in md or ncls.get_created_keys():
+            if sorted(md.get("injected_context_keys") or []) != sorted(ncls.get_created_keys()):
+                out.append(("mirror|metadata-created-keys", f"{label}: node metadata injected_context_keys={md.get('injected_context_keys')} vs get_created_keys()={ncls.get_created_keys()}", case))
     elif isinstance(node, _ContextProcessorNode):
+        if sorted(md.get("injected_context_keys") or []) != sorted(ncls.get_created_keys()):
+            out.append(("mirror|metadata-created-keys", f"{label}: node metadata injected_context_keys={md.get('injected_context_keys')} vs get_created_keys()={ncls.get_created_keys()}", case))
+    if isinstance(node, _ContextProcessorNode):
         declared = set(type(proc).get_created_keys())
         if set(ncls.get_created_keys()) != declared or set(ncls.get_suppressed_keys()) != set(type(proc).get_suppressed_keys()):
             out.append(("mirror|context-processor-keys", f"{label}: node keys {ncls.get_created_keys()}/{ncls.get_suppressed_keys()} vs processor", case))
